@@ -150,6 +150,10 @@ static void run_seq_body(const Plan &p, World &w, Ctx &x, const SeqOpts &so) {
             if (op.fk) { x.st.add("fault.alloc.planned"); if (fired) x.st.add("fault.alloc.fired", (uint64_t)fired); }
             x.tr(w.opnames()[op.k] + " -> " + got.show());
             if (ts) {
+                int dc = sim_take_depth_change();
+                if (dc != 0 && sim_lock_depth() == d0) {
+                    x.fail("lock-depth", "lock", "inside " + w.render(op) + " a single call returned with the container lock depth changed by " + num(dc) + " (entered with the lock held by the caller)");
+                }
                 int d1 = sim_lock_depth();
                 if (d1 != d0) {
                     int leaked = d1 - d0;
